@@ -95,6 +95,12 @@ CHECKS.update({
             'an automaton, blocking Sync calls must return, no thread may die or deadlock, and a final healthy attempt on the same object '
             'must connect with the right tables.',
             'Interleavings at synchronisation-operation granularity; bounded virtual horizon; two listed known findings (error reported while the dispatcher is mid-dispatch).'),
+    'C10': ('exploration', 'DESIGN.md 3/C10', 'dsched+simcf',
+            'Hypothesis-generated request/reply/loss/close/reopen timelines with virtual timers and generated schedules; oracle over the virtually time-stamped transmission log against the retry law t0 + n*timeout and a reference longest-prefix pattern model',
+            'Requests with prefix-sharing expectations and both timeouts are issued on resending and reliable links against a scripted peer '
+            'that loses and delays replies around the retry instants; closes, link errors and reopens are placed relative to pending timers; '
+            'every transmission is compared with the set of instants the retry law allows.',
+            'Virtual time (timers exact); coincidences of a timer instant with a reply or a close are accepted either way.'),
 })
 
 ALL = ['C%02d' % i for i in range(1, 21)]
